@@ -6,7 +6,7 @@
 # /repo must be clean and must not be touched while this runs; do not edit /verif/mc either (every
 # run rebuilds the checkers). Every patch is reverted after its run.
 cd /verif
-declare -A EXTRA=( [C01-b]="C03" [C02-a]="C01 C09" [C08-a]="C05" [C10-a]="C02" [C10-c]="C03" [C10-d]="C06" [C02-f]="C09" [C10-f]="C04" [C10-g]="C04" [C15-g]="C04" [C08-i]="C13" [C01-k]="C12" [C02-k]="C14" [C08-k]="C09" [C10-k]="C06" [C10-l]="C07" [C10-o]="C03" [C08-s]="C02" [C05-t]="C02" [C10-t]="C07" [C06-t]="C04" [C16-s]="C09" )
+declare -A EXTRA=( [C01-b]="C03" [C02-a]="C01 C09" [C08-a]="C05" [C10-a]="C02" [C10-c]="C03" [C10-d]="C06" [C02-f]="C09" [C10-f]="C04" [C10-g]="C04" [C15-g]="C04" [C08-i]="C13" [C01-k]="C12" [C02-k]="C14" [C08-k]="C09" [C10-k]="C06" [C10-l]="C07" [C10-o]="C03" [C08-s]="C02" [C05-t]="C02" [C10-t]="C07" [C06-t]="C04" [C16-s]="C09" [C10-u]="C08" )
 if [ $# -eq 0 ]; then
   : > seeded/RESULTS.tsv
   LIST=$(ls -d seeded/C*/ | xargs -n1 basename)
